@@ -2733,12 +2733,12 @@ lyd_merge(struct lyd_node **target, const struct lyd_node *source, const struct 
         first = (sibling_src == source) ? 1 : 0;
         ret = lyd_merge_sibling_r(target, NULL, &sibling_src, merge_cb, cb_data, options,
                 &lyds, &leader, &dup_inst);
-        if (ret) {
-            break;
-        }
         if (first && !sibling_src) {
             /* source was spent (unlinked), move to the next node */
             source = tmp;
+        }
+        if (ret) {
+            break;
         }
 
         if (nosiblings) {
